@@ -188,7 +188,7 @@ func regexCompare(field string, value string) (CompareFunc, error) {
 	if value[0] != '/' || value[len(value)-1] != '/' {
 		return nil, fmt.Errorf("regex not enclosed in //")
 	}
-	value = fmt.Sprintf("^%s$", value[1:len(value)-1])
+	value = fmt.Sprintf("^(?:%s)$", value[1:len(value)-1])
 	re, err := regexp.Compile(value)
 	if err != nil {
 		return nil, fmt.Errorf("regex failed to compile: %s", value)
